@@ -22,6 +22,20 @@ Scope, said once:
 * the routes of the two k-shortest-path algorithms are not here: `Props/C13.lean` proves for every
   route they return that it is a contiguous loop-free origin–destination walk without repeated edge,
   and the C01 oracle judges every k-shortest-path route of the C01 run.
+* **outside every theorem** (ordered fields have no +∞, NaN, overflow or underflow), tied by the
+  correspondence run only — the oracles are silent on such cases: a tentative cost of +∞ (an
+  overflowing sum) or NaN never improves on a *missing* label: the code tests
+  `tentative < Cost::INFINITY`, the model `improves tent none = Lit.belowInf tent`, constantly true in
+  an ordered field (`LawfulLit.belowInf_eq`, so no statement here changed) and the IEEE test at
+  `Float`.  One generated case in six is pushed where the plain generator never goes (lengths,
+  speeds, weights, rates, delays, initial values, weight factors, vehicle limits of 0, −0, negative,
+  1e308, ±∞, NaN, subnormal; limits at the ends of `u64` / `usize`);
+* **modelled rather than verified — the NaN-free domain**: the code orders `Cost`, `Distance`,
+  `Weight`, `Speed` by `OrderedFloat`'s total order (NaN the greatest number, NaN = NaN), the model by
+  IEEE `<` / `≤`.  They differ only on NaN operands (`push_increase` against a NaN priority; a NaN
+  vehicle-restriction limit; `get_max_speed` of a table with a NaN), which no file or JSON document
+  can supply — the readers refuse NaN — and which the extreme-value stream reaches only through
+  values constructed in code, where model and code agreed on every generated case.
 -/
 import Compass.Proofs.SearchTree
 import Compass.Proofs.Instance
